@@ -1625,8 +1625,23 @@ def _realfn(name):
     return f
 
 
+def _is_inf(t, sign):
+    """the symbol INF (optable_torch) or its negation: no float lies beyond it, so clamping at it is the identity"""
+    t = z3.simplify(t) if isinstance(t, z3.ExprRef) else t
+    if not isinstance(t, z3.ExprRef):
+        return False
+    if sign > 0:
+        return z3.is_const(t) and t.decl().name() == "INF"
+    return (z3.is_app_of(t, z3.Z3_OP_UMINUS) and _is_inf(t.arg(0), 1)) or (z3.is_mul(t) and t.num_args() == 2 and z3.is_rational_value(t.arg(0)) and t.arg(0).numerator_as_long() == -1
+                                                                         and t.arg(0).denominator_as_long() == 1 and _is_inf(t.arg(1), 1))
+
+
 def _clamp(ctx, x, lo, hi):
     r = x
+    if lo is not None and _is_inf(lo, -1):
+        lo = None
+    if hi is not None and _is_inf(hi, 1):
+        hi = None
     if lo is not None:
         r, l2 = coerce_pair(r, lo)
         r = z3.If(r < l2, l2, r)
@@ -2080,6 +2095,18 @@ METHODS["double"] = lambda t, it, ctx, a, k: m_to(t, it, ctx, [], {})
 METHODS["index_select"] = m_index_select
 METHODS["__getitem__"] = lambda t, it, ctx, a, k: index_tensor(t, it, ctx, a[0])
 METHODS["t"] = m_t
+
+
+def m_select(t, it, ctx, a, k):
+    """x.select(dim, index) = x[:, ..., index, ...] with the integer index at position dim"""
+    dim = a[0] if a else k["dim"]
+    index = a[1] if len(a) > 1 else k["index"]
+    p = norm_dim(ctx, t, dim)
+    full = VSlice(NONE, NONE, NONE)
+    return index_tensor(t, it, ctx, VTuple([full] * p + [index]))
+
+
+METHODS["select"] = m_select
 METHODS["tril"] = _m_tri(True)
 METHODS["triu"] = _m_tri(False)
 for _n in ("add", "sub", "mul", "div", "pow", "neg", "abs", "exp", "log", "sqrt", "clamp", "clamp_min", "clamp_max", "square",
